@@ -78,15 +78,15 @@ theorem skel_frameExecutor_shape :
   "  select",
   "    case <-ctx.Done()",
   "      return",
-  "    case buf := <-c.frameExecQueue",
+  "    case qf := <-c.frameExecQueue",
   "      var frame frame",
-  "      if err := json.Unmarshal(buf, &frame); err != nil",
+  "      if err := json.Unmarshal(qf.buf, &frame); err != nil",
   "        continue",
   "      var err error",
   "      frame.ID, err = normalizeID(frame.ID)",
   "      if err != nil",
   "        continue",
-  "      c.handleFrame(ctx, frame)"] := rfl
+  "      c.handleFrame(ctx, frame, qf.epoch)"] := rfl
 
 /-- `handleResponse`: unknown id ↦ return; channel results register the sink first; deliver to `req.ready`; remove the entry only if it is still this request's. -/
 theorem skel_handleResponse_shape :
